@@ -205,7 +205,7 @@ func runCheck(repo, verif, prop, tier string, seed int, updateExpected, verbose 
 	}
 	timeout := 40
 	if tier == "thorough" {
-		timeout = 180
+		timeout = 300
 	}
 	// stretch set: obligations reported but never deciding
 	stretch := map[string]bool{}
